@@ -4,7 +4,7 @@ from props._common import *  # noqa
 ID = 'C20'
 LEVEL = 'other'
 MANIFEST_LEVEL = 'other'
-FUNCTIONS = []
+FUNCTIONS = ['soupsieve.util.get_pattern_context']
 
 def _bt_diag(ctx):
     from pyvc import bounded_text
@@ -23,12 +23,12 @@ def _f4(ctx):
 
 STRUCTURAL = [_f4]
 BOUNDED = [_bt_diag, _bt_pretty_sweep]
-TRUSTED = [A_PY, A_RE, 'get_pattern_context and pretty are not yet under discharged contracts: bounded (exhaustive to length 5/7 for the offset formula)']
+TRUSTED = [A_PY, A_RE, 'A-re-finditer: RE_PATTERN_LINE_SPLIT.finditer(s) yields the line breaks of s in order (CRLF as one) and then one empty match at len(s) - assumed by the get_pattern_context contract, validated exhaustively to length 7 (10) on every run', 'the context string with its caret (result[0]) and pretty are not under discharged contracts: bounded (exhaustive to length 5/7)']
 ASSUMPTIONS = TRUSTED
-EXPLANATION = ('Structural: code under `if self.debug:` only prints and DEBUG is read nowhere else (F4). Bounded: line/column/caret of get_pattern_context against the formula of the '
+EXPLANATION = ('Proved (VCs from the real AST, z3): for every pattern and every offset 0..len(pattern), get_pattern_context returns line == 1 + the number of line breaks that end at or before the offset and column == offset - (end of the last such break, or 0) + 1, over the line-split matches (loop invariant over finditer). Structural: code under `if self.debug:` only prints and DEBUG is read nowhere else (F4). Bounded: line/column/caret of get_pattern_context against the formula of the '
                'property for all strings over {a, CR, LF} up to length 5 (7) and all offsets incl. the end; error positions of malformed patterns; pretty() terminates and equals repr up to whitespace.')
 LEVEL_TEXT = EXPLANATION
-TECHNIQUE = 'effect obligation over the parser AST + bounded (exhaustive small scope) evaluation of the diagnostic contracts'
+TECHNIQUE = 'contract-based deductive verification of the offset -> (line, column) loop + effect obligation over the parser AST + bounded (exhaustive small scope) evaluation of the context string and of pretty()'
 
 
 def _progress(ctx):
@@ -38,3 +38,12 @@ def _progress(ctx):
 
 
 STRUCTURAL = (globals().get('STRUCTURAL') or []) + [_progress]
+
+
+def _v_line_split(ctx):
+    from pyvc import bounded_misc
+    return bounded_misc.validate_line_split(ctx)
+
+
+VALIDATION = [_v_line_split]
+MUSTFAIL_PER_FN = {'quick': 6, 'thorough': None}
